@@ -274,6 +274,15 @@ impl<L: Language, N: Analysis<L>> EGraph<L, N> {
                 #[allow(unused)]
                 let (a, b, proof) = self.pc_congruence(&pc1, &pc2);
 
+                // If the two variants invoke the class with different slots, this is not a symmetry:
+                // it proves that the differing slots are redundant. Let `union` shrink the class,
+                // and start over (the class has fewer slots now).
+                if a.slots() != b.slots() {
+                    self.union_internal(&a, &b, proof);
+                    self.determine_self_symmetries(src_id);
+                    return;
+                }
+
                 // or is it the opposite direction? (flip a with b)
                 let perm = a.m.compose(&b.m.inverse());
 
